@@ -193,6 +193,10 @@ class TriggerHandler:
 
     def __process_call_backs(self, ctx: 'TriggerContext', arg: any, frame: FrameType, event: str, file: str, line: int,
                              function_name: str):
+        if len(self._callbacks.value) == 0:
+            # nothing is pending (e.g. an earlier failure left an empty queue), so clear the queue and carry on
+            self._callbacks.clear()
+            return
         # remove top context
         context: CallbackContext = self._callbacks.value.pop()
         try:
